@@ -262,6 +262,28 @@ def run_all(shard, rec, B):
                               expected="a gate without generator and maps stays a random gate", observed=[rg.forward_map is not None, rg.backward_map is not None])
                     rc = rg.copy()
                     rec.check("copy.eq.random_gate", rc.generator is None and rc.forward_map is None and rc.backward_map is None and rc.qubits == rg.qubits, {"n": nq}, True)
+        if B.name == "np" and hasattr(B.circuit, "Circuit") and N >= 2:
+            # the record a caller hands to Circuit.backward stays the caller's: later runs of the same circuit (which append to the
+            # circuit's own record) leave it as it was
+            prog2 = PR.rand_program(rng, N, 3, kinds=["setgen", "fmap"], named=False)
+            cm = B.circuit.Circuit(N)
+            mq = sorted(int(q) for q in rng.choice(N, size=int(rng.integers(1, N)), replace=False))
+            try:
+                for s_ in prog2[:2]:
+                    cm.take(PR.make_gate(B, s_, N))
+                cm.measure(*mq)
+                cm.take(PR.make_gate(B, prog2[2], N))
+                S0 = B.State(tg.copy(), tp.copy(), 0)
+                cm.forward(S0)
+                mine = [int(x) for x in cm.measure_result[-len(mq):]]
+                given = list(mine)
+                cm.backward(S0, measure_result=given)      # the trajectory just recorded, undone on its own final state: always possible
+                for _ in range(2):
+                    cm.forward(B.State(tg.copy(), tp.copy(), 0))
+                rec.check("inplace.arg.circuit.backward.record", [int(x) for x in given] == mine, {"N": N, "measured": mq}, True,
+                          expected=mine, observed=[int(x) for x in given])
+            except Exception as e:
+                rec.refusal("circuit.backward.record:%s" % type(e).__name__)
         for name, recv, args, call in inplace:
             sa0 = [gate_def_snapshot(a) for a in args]
             r0 = snapshot(recv)
